@@ -9,7 +9,7 @@ Val(x) == [z |-> x.z, e |-> x.e, m |-> x.m]
 
 Clauses(r) ==
   LET A == Range(r.a)  B == Range(r.b)  C == Range(r.c)
-      names == <<"ab", "ba", "ac", "ca", "bc", "cb", "wab", "wba", "aug", "pab", "pac", "mab", "mac", "maa", "mbc", "qab", "qac", "lab", "lac", "lbc", "lbb", "saa">>
+      names == <<"ab", "ba", "ac", "ca", "bc", "cb", "wab", "wba", "aug", "pab", "pac", "mab", "mac", "maa", "mbc", "qab", "qac", "lab", "lac", "lbc", "lbb", "saa", "oab", "oac", "obc">>
       ok == r.ok /\ \A i \in DOMAIN names : WF(r.d[names[i]])
       d(n) == Val(r.d[n])
       X == Range(r.ax)  Y == Range(r.bx)           \* A + {x}, B + {x} with x in neither
@@ -29,6 +29,7 @@ Clauses(r) ==
      <<"one-against-many-path-agrees", ok => d("pab") = d("ab") /\ d("pac") = d("ac")>>,
      <<"index-selected-bulk-paths-agree", ok => d("mab") = d("ab") /\ d("mac") = d("ac") /\ d("maa") = F32Zero /\ d("mbc") = d("bc")>>,
      <<"list-of-mixed-types-matrix-path-agrees", ok => d("lab") = d("ab") /\ d("lac") = d("ac") /\ d("lbc") = d("bc") /\ d("lbb") = F32Zero>>,
+     <<"caller-supplied-result-arrays-of-other-layouts-hold-the-table", ok => d("oab") = d("ab") /\ d("oac") = d("ac") /\ d("obc") = d("bc")>>,
      <<"single-signature-all-pairs-table-is-zero", ok => d("saa") = F32Zero>>,
      <<"augmenting-both-strictly-decreases", ok => IF A = B THEN d("aug") = F32Zero ELSE F32Less(d("aug"), d("ab"))>>,
      <<"equals-correctly-rounded-ratio", ok => /\ d("ab") = Dist32(A, B) /\ d("ac") = Dist32(A, C) /\ d("bc") = Dist32(B, C)
